@@ -27,7 +27,7 @@ NUM_CAT_POOLS = {
 # bool-valued qualitative columns are outside the stated input domain ("strings or numbers"): they are only
 # generated where the oracle is purely differential (C10), never where correctness of their handling is judged
 DEFAULT_CAT_FLAVOURS = ["str", "str", "str", "str", "ints", "floats", "numstr", "mixed", "flags"]
-WITH_BOOLS = DEFAULT_CAT_FLAVOURS + ["bools", "bools"]
+WITH_BOOLS = ["str", "str", "ints", "floats", "numstr", "mixed", "flags", "flags", "flags", "bools", "bools", "bools"]
 WEIGHTS = [0, 1, 1, 2, 3, 5, 8]
 CONT_WEIGHTS = [0, 1, 1, 1, 2]
 
